@@ -10,3 +10,8 @@ Definition table : list (string * (val -> val)) :=
        VS (emit_rest (as_bool (arg 0 v)) (as_str (arg 1 v))
              (map (fun a => (as_str (arg 0 a), entry_of (arg 1 a))) (as_list (arg 2 v)))
              (match arg 3 v with VN => None | r => Some (entry_of r) end))) ]%string.
+Definition table2 : list (string * (val -> val)) :=
+  [ ("rest_emit_indented", fun v =>   (* [indent_level, emit_types, doc, params, ret|N] *)
+       VS (emit_rest_indented (Z.to_nat (as_Z (arg 0 v))) (as_bool (arg 1 v)) (as_str (arg 2 v))
+             (map (fun a => (as_str (arg 0 a), entry_of (arg 1 a))) (as_list (arg 3 v)))
+             (match arg 4 v with VN => None | r => Some (entry_of r) end))) ]%string.
